@@ -26,7 +26,35 @@ fn check_err<T: Ord + Default>(num: T) -> Result<T> {
 
 pub fn pipe() -> Result<(File, File)> {
     let mut fds = [0 as c_int; 2];
-    check_err(unsafe { libc::pipe(fds.as_mut_ptr()) })?;
+    // Both ends are created close-on-exec, atomically where the OS can do
+    // that.  A pipe end that is inheritable even for an instant leaks into
+    // children spawned concurrently from other threads, where it keeps the
+    // pipe from ever reporting EOF.  The child's ends are made inheritable in
+    // the child itself, by dup2() onto the standard descriptors.
+    #[cfg(any(
+        target_os = "linux",
+        target_os = "android",
+        target_os = "freebsd",
+        target_os = "netbsd",
+        target_os = "openbsd",
+        target_os = "dragonfly"
+    ))]
+    check_err(unsafe { libc::pipe2(fds.as_mut_ptr(), libc::O_CLOEXEC) })?;
+    #[cfg(not(any(
+        target_os = "linux",
+        target_os = "android",
+        target_os = "freebsd",
+        target_os = "netbsd",
+        target_os = "openbsd",
+        target_os = "dragonfly"
+    )))]
+    {
+        check_err(unsafe { libc::pipe(fds.as_mut_ptr()) })?;
+        for &fd in &fds {
+            let old = fcntl(fd, F_GETFD, None)?;
+            fcntl(fd, F_SETFD, Some(old | FD_CLOEXEC))?;
+        }
+    }
     Ok(unsafe { (File::from_raw_fd(fds[0]), File::from_raw_fd(fds[1])) })
 }
 
